@@ -279,9 +279,9 @@ def oracle_angular(ck, tier):
     rng = np.random.default_rng(seed() + 1717)
     for method in (["two_point", "hansenlaw"] if tier == "quick" else ["two_point", "three_point", "onion_peeling", "hansenlaw", "basex", "daun"]):
         im = rng.random((15, 15)) + 0.1
-        session = [dict(dr=0.5), dict(), dict(dr=2.0), dict()]
+        session = [dict(dr=0.5), dict(), dict(dr=2.0), dict(), dict(dr=0.5), dict(dr=2.0)]
         for k, topt in enumerate(session):
-            aopt = [None, dict(), dict(dt=0.1), None][k]
+            aopt = [None, dict(), dict(dt=0.1), None, dict(dr=2.0), dict(dr=0.25, dt=0.2)][k]     # (a dr of its own is the integration's, not overridden)
             ck.count(("S.angular", method, k), suite="S.oracle")
             rep = dict(method=method, call=k, transform_options=topt, angular_integration_options=aopt, session=[str(s_) for s_ in session[:k + 1]])
             try:
@@ -289,7 +289,7 @@ def oracle_angular(ck, tier):
                 if aopt is not None:
                     kw["angular_integration_options"] = aopt
                 Tr = quiet(abel.Transform, im, method=method, angular_integration=True, **kw)
-                want = quiet(angular_integration_3D, Tr.transform, **dict(aopt or {}, **({"dr": topt["dr"]} if "dr" in topt else {})))
+                want = quiet(angular_integration_3D, Tr.transform, **dict(({"dr": topt["dr"]} if "dr" in topt else {}), **(aopt or {})))
             except Exception as e:
                 ck.violation(dict(site="Transform", clause="exception"), rep, f"{type(e).__name__}: {e}")
                 continue
